@@ -31,7 +31,7 @@ def select(t, c):
 
 
 def run(tier):
-    return sc.run_family(PID, tier, RULE, select, cap=dict(quick=600, thorough=5000))
+    return sc.run_family(PID, tier, RULE, select, cap=dict(quick=600, thorough=2500))
 
 
 def replay(path):
